@@ -333,6 +333,27 @@ fn check_matcher(
         let (chord, value) = &model.bound[segment.chord as usize % model.bound.len()];
         let mut clause = "A";
         let mut context = "from idle".to_string();
+        // Now and then the handler is cleared while keys of a longer chord are pending and the same
+        // bindings are registered again: a cleared handler is an idle handler.
+        if segment.chord % 4 == 3 {
+            if let Some((c, l)) = segment.pending {
+                let (longer, _) = &model.bound[c as usize % model.bound.len()];
+                if longer.len() >= 2 {
+                    let l = 1 + (l as usize % (longer.len() - 1));
+                    for k in &longer[..l] {
+                        let _ = handler.handle(pool[*k as usize]);
+                    }
+                    ctx.feat("matcher.handler-cleared-with-pending-keys");
+                }
+            }
+            handler.clear();
+            for (bound, v) in model.bound.iter() {
+                handler.register(&keys_of(bound, pool), *v);
+            }
+            state.clear();
+            context = "from idle (handler cleared and bindings registered again)".to_string();
+            ctx.feat("matcher.handler-cleared");
+        }
         if let Some(sel) = segment.unbound {
             if unbound.is_empty() {
                 ctx.feat("matcher.no-unbound-key-available");
